@@ -107,7 +107,15 @@ def run_impl(case):
     table = [tuple(r) for r in case['table']]
     defaults = None if case['defaults'] is None else [tuple(d) for d in case['defaults']]
     w = World(table, case['store'], defaults)
-    cfg = TorConfig(w.proto)
+    pre = case.get('pre')
+    if pre is None:
+        cfg = TorConfig(w.proto)
+    else:
+        # the txtorcon.launch() path: a configuration built from scratch, attached later
+        cfg = TorConfig()
+        for n, v in pre:
+            setattr(cfg, n, py_of_val(v))
+        cfg.attach_protocol(w.proto)
     boot = []
     cfg.post_bootstrap.addBoth(boot.append)
     names = [n for n, _ in options(table)]
@@ -338,6 +346,7 @@ def coq_input(case):
                i_store=L(Pair(B(k), L(B(v) for v in vs)) for k, vs in case['store'].items()),
                i_defaults=Opt(None if case['defaults'] is None
                               else L(Pair(B(n), B(v)) for n, v in case['defaults'])),
+               i_pre=Opt(None if case.get('pre') is None else L(Pair(B(n), coq_val(v)) for n, v in case['pre'])),
                i_ops=L(coq_op(o) for o in case['ops']))
 
 
@@ -494,6 +503,7 @@ class Sim(object):
         self.det = set()
         self.f1 = self.f3 = False
         self.fs = False      # envelope flag: a copy whose source had a pending change
+        self.f4 = False      # an acknowledged save with a list element that is not a non-empty string
 
     def clone(self):
         s = Sim.__new__(Sim)
@@ -504,6 +514,7 @@ class Sim(object):
         s.det = set(self.det)
         s.f1, s.f3 = self.f1, self.f3
         s.fs = self.fs
+        s.f4 = self.f4
         return s
 
     def find(self, name):
@@ -534,7 +545,7 @@ class Sim(object):
         return [('s', x) for x in split_comma(p[1])]
 
     def flags(self):
-        return [self.f1, self.f3]
+        return [self.f1, self.f3, self.f4]
 
     def step(self, op):
         k = op[0]
@@ -570,6 +581,8 @@ class Sim(object):
             if any(v[0] == 'l' and not v[1] for v in self.pend.values()):
                 self.f1 = True
             if op[1] is None:
+                if any(v[0] == 'l' and any(not (a[0] == 's' and a[1]) for a in v[1]) for v in self.pend.values()):
+                    self.f4 = True
                 for cn, v in self.pend.items():
                     if v[0] == 's':
                         self.store[cn] = [v[1]] if v[1] else []
